@@ -41,11 +41,23 @@ Definition two_prev (s : str) (pos : nat) : option nat :=
 
 Definition is_none {A} (o : option A) : bool := match o with None => true | Some _ => false end.
 
+(** [content[..byte_pos].trim_end_matches(' ' | '\t')] is empty or ends with a line break: scanning
+    back from [cursor] over blanks reaches the start of the string or a line break. *)
+Fixpoint residue_is_blank (s : str) (cursor : nat) : bool :=
+  match cursor with
+  | 0 => true
+  | S c => match nth_error s c with
+           | Some b => if is_blank b then residue_is_blank s c else beq b NL
+           | None => false
+           end
+  end.
+
 (** EmptyLineRemover::format *)
 Definition empty_line_remover (s : str) (pos : nat) : res range :=
   if negb (is_boundary s pos) then Panic
   else if negb (match nth_error s pos with Some b => beq b NL | None => false end)
   then Ok (pos, pos)
+  else if negb (residue_is_blank s pos) then Ok (pos, pos)
   else if is_none (two_next s pos) && is_none (two_prev s pos) then Ok (pos, pos + 1)
   else Ok (pos, pos).
 
